@@ -244,3 +244,134 @@ theorem runActs_reach {sh : Shape} {stream server : Bool} {m : Nat} {s t : St} (
       | env e => exact Step.env (envNext_sound hu)
 
 end Mieru.UClose
+
+namespace Mieru.UClose
+open Act EnvAct
+
+/-- a state in which the event loop is parked in a read under a deadline that is not in the past,
+    every caller of Close is idle or has returned, Mux.Close is at most waiting for the loop of a
+    server, and there are no sessions: nothing can move -/
+theorem parked_quiescent (sh : Shape) (s : St)
+    (hl : s.loop = .read ∨ s.loop = .readMore ∨ s.loop = .drain) (hdl : s.dl ≠ .past)
+    (hmux : s.mux = .idle ∨ s.mux = .ret ∨ (s.mux = .wait ∧ s.server = true))
+    (hcl : ∀ k, k < s.m → s.cl k = .idle ∨ s.cl k = .ret) (hn : s.n = 0) : Quiescent sh s := by
+  intro t st
+  cases st with
+  | finClose i hi _ _ => omega
+  | loopExit i hi _ _ => omega
+  | netWake i hi _ _ => omega
+  | lock k hk h _ => rcases hcl k hk with e | e <;> rw [e] at h <;> cases h
+  | chkDone k hk h _ => rcases hcl k hk with e | e <;> rw [e] at h <;> cases h
+  | chkOpen k hk h _ => rcases hcl k hk with e | e <;> rw [e] at h <;> cases h
+  | poke1 k hk h => rcases hcl k hk with e | e <;> rw [e] at h <;> cases h
+  | sessClose k i b hk h _ => rcases hcl k hk with e | e <;> rw [e] at h <;> cases h
+  | sessEnd k i b hk h _ => rcases hcl k hk with e | e <;> rw [e] at h <;> cases h
+  | wgWait k i b hk h _ _ _ _ => rcases hcl k hk with e | e <;> rw [e] at h <;> cases h
+  | closeDone k hk h => rcases hcl k hk with e | e <;> rw [e] at h <;> cases h
+  | poke2 k hk h => rcases hcl k hk with e | e <;> rw [e] at h <;> cases h
+  | unlock k hk h => rcases hcl k hk with e | e <;> rw [e] at h <;> cases h
+  | muxCancel h => rcases hmux with e | e | ⟨e, _⟩ <;> rw [e] at h <;> cases h
+  | muxCall _ h _ => rcases hmux with e | e | ⟨e, _⟩ <;> rw [e] at h <;> cases h
+  | muxClosed h _ => rcases hmux with e | e | ⟨e, _⟩ <;> rw [e] at h <;> cases h
+  | muxWait h hx =>
+    rcases hmux with e | e | ⟨_, e⟩
+    · rw [e] at h; cases h
+    · rw [e] at h; cases h
+    · rcases hx with hx | hx
+      · rw [e] at hx; cases hx
+      · rcases hl with e | e | e <;> rw [e] at hx <;> cases hx
+  | readTimeout h hp => exact hdl hp
+  | readMoreTimeout h hp => exact hdl hp
+  | drainTimeout h hp => exact hdl hp
+  | _ => rcases hl with e | e | e <;> simp_all
+
+end Mieru.UClose
+
+namespace Mieru.UClose
+open Act EnvAct
+
+/-- what a counterexample trace ends in: a reachable state in which nothing can move although Close
+    has been called and has closed `done`, with the event loop parked in a read -/
+structure ParkedWitness (sh : Shape) (stream server : Bool) (m : Nat) (s : St) : Prop where
+  reach : Reach sh stream server m s
+  quiet : Quiescent sh s
+  done : s.done = true
+  parked : s.loop = .read ∨ s.loop = .readMore ∨ s.loop = .drain
+  armed : s.dl = .future
+
+/-- a trace accepted by `runActs` whose final state has the listed components is a witness -/
+theorem witness_of_trace (sh : Shape) (stream server : Bool) (m : Nat) (acts : List Act) (t : St)
+    (hrun : runActs sh (init stream server m) acts = some t)
+    (hl : t.loop = .read ∨ t.loop = .readMore ∨ t.loop = .drain) (hdl : t.dl = .future) (hd : t.done = true)
+    (hmux : t.mux = .idle ∨ t.mux = .ret ∨ (t.mux = .wait ∧ t.server = true))
+    (hcl : ∀ k, k < m → t.cl k = .idle ∨ t.cl k = .ret) (hn : t.n = 0) : ParkedWitness sh stream server m t := by
+  have hr := runActs_reach acts Reach.init hrun
+  have hm := (reach_inv hr).m
+  exact ⟨hr, parked_quiescent sh t hl (by rw [hdl]; simp) hmux (by rw [hm]; exact hcl) hn, hd, hl, hdl⟩
+
+theorem callers_le3 {t : St} {m : Nat} (hm : m ≤ 3) (h0 : t.cl 0 = .idle ∨ t.cl 0 = .ret) (h1 : t.cl 1 = .idle ∨ t.cl 1 = .ret)
+    (h2 : t.cl 2 = .idle ∨ t.cl 2 = .ret) : ∀ k, k < m → t.cl k = .idle ∨ t.cl k = .ret := by
+  intro k hk
+  match k with
+  | 0 => exact h0
+  | 1 => exact h1
+  | 2 => exact h2
+  | k + 3 => omega
+
+/-- `drainAfterError` without the check (the code before this round's `fix:`): a stranger's bytes do not
+    decrypt, the loop is about to arm the drain deadline, the server's Mux.Close runs to completion, the
+    loop arms and parks; Mux.Close waits for it -/
+def drainTrace : List Act := [own 0, own 0, own 0, env (readTo (.errc true)), own 0, env muxClose, own 1, own 1,
+  own 3, own 3, own 3, own 3, own 3, own 3, own 3, own 1, own 0]
+
+theorem drain_witness : ∃ s, ParkedWitness ⟨true, true, false⟩ true true 2 s ∧ s.loop = .drain ∧ s.mux = .wait ∧ s.poked2 = true := by
+  match h : runActs ⟨true, true, false⟩ (init true true 2) drainTrace with
+  | none => exact absurd h (by decide)
+  | some t =>
+    have e : (runActs ⟨true, true, false⟩ (init true true 2) drainTrace).map sig =
+        some ⟨.drain, .future, true, .wait, true, 0, true, false, .idle, .ret, .idle⟩ := by decide
+    rw [h] at e
+    simp only [Option.map_some, Option.some.injEq, sig, Sig.mk.injEq] at e
+    obtain ⟨e1, e2, e3, e4, e5, e6, e7, _, e9, e10, e11⟩ := e
+    exact ⟨t, witness_of_trace _ _ _ _ drainTrace t h (Or.inr (Or.inr e1)) e2 e3 (Or.inr (Or.inr ⟨e4, e5⟩))
+      (callers_le3 (by omega) (Or.inl e9) (Or.inr e10) (Or.inl e11)) e6, e1, e4, e7⟩
+
+/-- no check after arming (seeded change C15-1, and the code before `fix: underlay Close wakes the event
+    loop again…`): a packet client's loop has polled `done` and is about to arm; Close runs to completion
+    (both wake-ups); the loop arms and parks -/
+def armTrace : List Act := [own 0, own 0, env (call 2), own 4, own 4, own 4, own 4, own 4, own 4, own 4, own 0]
+
+theorem arm_witness : ∃ s, ParkedWitness ⟨false, true, true⟩ false false 3 s ∧ s.loop = .read ∧ s.poked2 = true := by
+  match h : runActs ⟨false, true, true⟩ (init false false 3) armTrace with
+  | none => exact absurd h (by decide)
+  | some t =>
+    have e : (runActs ⟨false, true, true⟩ (init false false 3) armTrace).map sig =
+        some ⟨.read, .future, true, .idle, false, 0, true, false, .idle, .idle, .ret⟩ := by decide
+    rw [h] at e
+    simp only [Option.map_some, Option.some.injEq, sig, Sig.mk.injEq] at e
+    obtain ⟨e1, e2, e3, e4, e5, e6, e7, _, e9, e10, e11⟩ := e
+    exact ⟨t, witness_of_trace _ _ _ _ armTrace t h (Or.inl e1) e2 e3 (Or.inl e4)
+      (callers_le3 (by omega) (Or.inl e9) (Or.inl e10) (Or.inr e11)) e6, e1, e7⟩
+
+/-- the only wake-up comes before `done` is closed (the code before `fix: underlay Close wakes the event
+    loop again after done is closed`, finding F-C15b): the woken loop goes round, arms again and parks
+    while Close is still closing -/
+def pokeTrace : List Act := [own 0, own 0, own 0, own 0, env (call 2), own 4, own 4, own 4, own 0, own 0, own 0, own 0, own 0,
+  own 4, own 4, own 4]
+
+theorem poke_witness : ∃ s, ParkedWitness ⟨true, false, true⟩ false false 3 s ∧ s.loop = .read := by
+  match h : runActs ⟨true, false, true⟩ (init false false 3) pokeTrace with
+  | none => exact absurd h (by decide)
+  | some t =>
+    have e : (runActs ⟨true, false, true⟩ (init false false 3) pokeTrace).map sig =
+        some ⟨.read, .future, true, .idle, false, 0, false, false, .idle, .idle, .ret⟩ := by decide
+    rw [h] at e
+    simp only [Option.map_some, Option.some.injEq, sig, Sig.mk.injEq] at e
+    obtain ⟨e1, e2, e3, e4, e5, e6, _, _, e9, e10, e11⟩ := e
+    exact ⟨t, witness_of_trace _ _ _ _ pokeTrace t h (Or.inl e1) e2 e3 (Or.inl e4)
+      (callers_le3 (by omega) (Or.inl e9) (Or.inl e10) (Or.inr e11)) e6, e1⟩
+
+/-- the current shape on the same three schedules: the loop leaves -/
+example : (runActs current (init true true 2) drainTrace).map sig = some ⟨.retn, .future, true, .wait, true, 0, true, false, .idle, .ret, .idle⟩ := by decide
+
+end Mieru.UClose
